@@ -112,7 +112,9 @@ func setStructToForm(q url.Values, val reflect.Value) {
 // Unmarshal parses the url encoded data and stores the result
 // in the value pointed to by v.
 func (FormCodec) Unmarshal(data []byte, v interface{}) error {
-	form, err := url.ParseQuery(goutil.BytesToString(data))
+	// a copy: keys and values that need no unescaping are substrings of the parsed string,
+	// and data is the caller's (pooled) buffer
+	form, err := url.ParseQuery(string(data))
 	if err != nil {
 		return fmt.Errorf("form codec: %s", err.Error())
 	}
